@@ -15,8 +15,9 @@ type flCase struct {
 	C      string // request: version ; reply: reason
 	Term   string
 	ViaMsg bool
-	Offs   int // start offset of the line in the buffer (bytes of an earlier message before it)
-	Cut    int // > 0: two chunks, the first ends Cut bytes into the line
+	Offs   int  // start offset of the line in the buffer (bytes of an earlier message before it)
+	Cut    int  // > 0: two chunks, the first ends Cut bytes into the line
+	all    bool // generator hint: run every cut for this case also in the quick tier
 }
 
 func (f flCase) line() []byte {
@@ -44,6 +45,7 @@ func evalC08(f flCase, raw []byte) (vs []*Violation) {
 		c.Extra = map[string]any{"kind": f.Kind, "a": bstr(f.A), "b": bstr(f.B), "c": bstr(f.C), "term": f.Term, "viamsg": f.ViaMsg, "offs": f.Offs, "cut": f.Cut}
 		vs = append(vs, &Violation{Property: "C08", Site: site, Rule: rule, Class: class, Detail: detail, Case: c})
 	}
+	defer recoverTo3(add)
 	var fl *sipsp.PFLine
 	var n int
 	var e sipsp.ErrorHdr
@@ -209,6 +211,18 @@ func checkC08(r *Run) {
 			}
 		}
 	}
+	// long unknown methods that END in a known method name (and start with one): the numeric method must come from
+	// the whole token whatever the chunking - always delivered at every cut
+	for m := range mthTable {
+		for _, pad := range []int{1, 13, 14, 16, 40} {
+			for _, t := range terms[:2] {
+				for _, via := range []bool{false, true} {
+					cases = append(cases, flCase{Kind: "request", A: strings.Repeat("X", pad) + m, B: "sip:a@b.c", C: "SIP/2.0", Term: t, ViaMsg: via, all: true},
+						flCase{Kind: "request", A: m + strings.Repeat("Y", pad), B: "sip:a@b.c", C: "SIP/2.0", Term: t, ViaMsg: via, all: true})
+				}
+			}
+		}
+	}
 	reasons := []string{"", "OK", "Not Found Here", "a\tb ", "\x80\xff", "200 OK", " "}
 	rvers := []string{"SIP/2.0", "sip/2.0", "SiP/2.0"}
 	for code := 0; code < 1000; code++ {
@@ -255,7 +269,7 @@ func checkC08(r *Run) {
 			r.Col.add(v)
 		}
 		// the same line behind an earlier message and delivered in two chunks: every cut inside the line (+2)
-		if i%r.pick(4, 1) != 0 {
+		if i%r.pick(4, 1) != 0 && !cases[i].all {
 			return
 		}
 		ll := len(cases[i].line())
